@@ -134,7 +134,8 @@ fn is_ambiguous_value(s: &str, yaml_12: bool) -> bool {
 /// Internal heuristic used by `write_plain_or_quoted`.
 #[inline]
 pub(crate) fn is_plain_safe(s: &str) -> bool {
-    if is_ambiguous(s) {
+    // A plain `<<` in key position would be read back as a merge key.
+    if is_ambiguous(s) || has_unsafe_plain_start(s) || has_unsafe_plain_end(s) || s == "<<" {
         return false;
     }
     let bytes = s.as_bytes();
@@ -172,7 +173,7 @@ pub(crate) fn is_plain_safe(s: &str) -> bool {
 /// could be misinterpreted as a number or boolean.
 #[inline]
 pub(crate) fn is_plain_value_safe(s: &str, yaml_12: bool, in_flow: bool) -> bool {
-    if is_ambiguous_value(s, yaml_12) {
+    if is_ambiguous_value(s, yaml_12) || has_unsafe_plain_start(s) {
         return false;
     }
 
@@ -216,6 +217,34 @@ pub(crate) fn is_plain_value_safe(s: &str, yaml_12: bool, in_flow: bool) -> bool
         // In block style, commas/brackets/braces are ordinary characters.
         !contains_any_or_is_control(s, &['#'])
     }
+}
+
+/// True if `s` cannot be a plain scalar because of how it starts: leading white space is
+/// dropped by parsers (and Unicode white space is trimmed before numbers are recognised), a
+/// leading byte order mark is stripped at the start of a stream, and `---` / `...` at the
+/// start of a line are document markers.
+fn has_unsafe_plain_start(s: &str) -> bool {
+    if s.starts_with(|c: char| c.is_whitespace() || c == '\u{FEFF}') {
+        return true;
+    }
+    for marker in ["---", "..."] {
+        if let Some(rest) = s.strip_prefix(marker)
+            && (rest.is_empty() || rest.starts_with([' ', '\t']))
+        {
+            return true;
+        }
+    }
+    false
+}
+
+/// True if `s` cannot be a plain scalar because of how it ends: trailing white space is not
+/// part of a plain scalar (and Unicode white space is trimmed before numbers are recognised).
+///
+/// Kept separate from [`is_plain_value_safe`], which also drives the choice of the folded
+/// block style for long single-line strings; callers that really emit the plain style check
+/// this in addition.
+pub(crate) fn has_unsafe_plain_end(s: &str) -> bool {
+    s.ends_with(|c: char| c.is_whitespace())
 }
 
 fn contains_any_or_is_control(string: &str, values: &[char]) -> bool {
